@@ -1,5 +1,6 @@
 """C17 - The generator rejects ill-formed specifications instead of emitting code."""
 import copy
+import os
 from vlib import *
 from genharness import *
 from gencheck import *
@@ -115,6 +116,20 @@ def snippets():
     add('underlying-self', [F('e4', 'HostKind:HostKind')])
     add('underlying-two-colons', [F('e5', 'HostKind:char:short')])
     add('underlying-on-string', [F('e6', 'string:char', length='2')])
+    # --- round-3 additions
+    add('break-after-dummy', [CH(F('bd', 'char'), D('short', '5'), dict(BR))])
+    add('break-then-field-after-dummy', [CH(D('short', '5'), dict(BR), F('t9', 'string'))])
+    add('break-after-dummy-in-case', [F('k9', 'char'), CH(SW('k9', CASE('1', D('char', '1')), CASE('2')), dict(BR), F('t9', 'string'))])
+    add('hardcoded-padded-too-short-named', [F('hp', 'string', 'HEY', length='5', padded='true')])
+    add('hardcoded-padded-too-short-unnamed', [F(None, 'string', 'HEY', length='5', padded='true')])
+    add('hardcoded-padded-too-short-encoded', [F('hp', 'encoded_string', 'HEY', length='4', padded='true')])
+    add('hardcoded-padded-too-long', [F('hp', 'string', 'HEYYOU', length='5', padded='true')])
+    add('switch-on-bool-override', [F('sb', 'bool:short'), SW('sb', CASE('1'))])
+    add('switch-on-encoded-string', [F('ss', 'encoded_string', length='2'), SW('ss', CASE('1'))])
+    add('delimited-in-case-of-unchunked', [F('k3', 'char'), SW('k3', CASE('1', A('da', 'char', delimited='true')))], True)
+    add('break-in-case-of-unchunked', [F('k3', 'char'), SW('k3', CASE('1', F('z3', 'char'), dict(BR)))], True)
+    add('optional-unnamed', [F(None, 'string', 'ab', length='2', optional='true')])
+    add('required-dummy-after-optional-then-field', [F('o1', 'char', optional='true'), D('char', '1'), F('x', 'char', optional='true')])
     return S
 
 
@@ -186,6 +201,17 @@ def tree_edits(tree, rng):
     ed('enum-without-type', lambda t: t['']['enums'].append(mk(type=None)))
     ed('enum-without-name', lambda t: t['']['enums'].append(mk(name=None)))
     ed('enum-named-like-builtin', lambda t: t['']['enums'].append(mk(name='char', type='short')))
+    ed('struct-named-like-builtin-int', lambda t: t['']['structs'].append({'name': 'short', 'body': [F('a', 'char')]}))
+    ed('struct-named-like-builtin-string', lambda t: t['pub']['structs'].append({'name': 'string', 'body': [F('a', 'char')]}))
+    ed('struct-named-like-builtin-blob', lambda t: t['']['structs'].append({'name': 'blob', 'body': [F('a', 'char')]}))
+
+    def swap_enum_for_struct(t, name):
+        t['net']['enums'] = [e for e in t['net']['enums'] if e['name'] != name]
+        t['net']['structs'].append({'name': name, 'body': [F('a', 'char')]})
+        if not (t['net/client']['packets'] or t['net/server']['packets']):
+            t['net/client']['packets'].append(dict(family='Init', action='Init', body=[F('a', 'char')]))
+    ed('packet-family-is-a-struct', lambda t: swap_enum_for_struct(t, 'PacketFamily'))
+    ed('packet-action-is-a-struct', lambda t: swap_enum_for_struct(t, 'PacketAction'))
     pk = lambda **k: dict({'family': 'Talk', 'action': 'Request', 'body': [F('a', 'char')]}, **k)
     ed('packet-unknown-family', lambda t: t['net/client']['packets'].append(pk(family='Nonesuch', action='Init')))
     ed('packet-unknown-action', lambda t: t['net/server']['packets'].append(pk(family='Init', action='Nonesuch')))
@@ -270,6 +296,24 @@ def run(tier):
             else:
                 nrej += 1
                 byrule[e['rule']][1] += 1
+    # which of the generator's `raise` statements did the catalogue reach?  (a rule never triggered is a rule never tested)
+    try:
+        import ast as _ast
+        sites = set()
+        gdir = os.path.join(C.scratch.dir, 'protocol_code_generator')
+        for dp, _, fns in os.walk(gdir):
+            for fn in fns:
+                if fn.endswith('.py'):
+                    pth = os.path.join(dp, fn)
+                    rel = pth[pth.index('protocol_code_generator'):]
+                    for node in _ast.walk(_ast.parse(open(pth).read())):
+                        if isinstance(node, _ast.Raise):
+                            sites.add(f"{rel}:{node.lineno}")
+        hit = {e['result'].get('raise_site') for e in entries if e['result'].get('raise_site')}
+        C.cov['generator_raise_sites'] = dict(total=len(sites), reached_by_the_catalogue=len(sites & hit), not_reached=sorted(sites - hit),
+                                              other_rejection_sites=sorted(hit - sites))
+    except Exception as ex:
+        C.cov['generator_raise_sites'] = dict(error=str(ex)[:200])
     C.stream('oracle.rejected', len(entries), len({e['name'] for e in entries if not e['expect']}), sample=dict(tree=entries[1]['name'] if len(entries) > 1 else None))
     C.cov['distribution'] = dict(mutated_trees=len(entries), rejected=nrej, rules=len(byrule), per_rule={k: v[0] for k, v in sorted(byrule.items())})
     # ---- correspondence: the reference elaboration accepts/rejects exactly the same trees
